@@ -141,6 +141,11 @@ C11_Options(C, R) ==
     /\ (~IsErr(R) /\ C.maxsteps >= 0 => R.nstep <= C.maxsteps + 1)
     /\ (~IsErr(R) /\ R.status = "NeedLargerNMax" => C.maxsteps >= 0 \/ C.api = "low")
 
+(* ---------------------------------------------------------------- C15 *)
+\* index-1 differential-algebraic problems (singular mass): Radau solves them, the algebraic constraint holds at every
+\* stored sample and the differential components agree with the reduced ordinary system (facts of the recorder)
+C15_Dae(C, R) == (IsSol(R) /\ R.dae.has) => (R.dae.solved /\ R.dae.res_ok /\ R.dae.ref_ok)
+
 (* ---------------------------------------------------------------- C18 *)
 C18_Counters(C, A, R) ==
     ~IsErr(R) =>
